@@ -30,6 +30,29 @@ UFUEL = 100000
 MAX_UNFOLD = 350
 
 SIG_CLASH = "uniquify.name_clash.raises_value"
+SIG_EID = "uniquify.identifier_clash.raises_value"
+SIG_FLAT_EID = "flatten.identifier_clash.raises_value"
+SIG_FLAT_SHELL = "flatten.shell_name_collision.raises_value"
+UNIQ_ID_RE = re.compile(r"^(.*)_sdn_unique_(\d+)$", re.S)
+FLAT_ID_RE = re.compile(r"^(instance|cable)_sdn_flat_\d+$")
+
+
+def eid_risk(design):
+    """the identifier part of the uniquify repair can matter on this input: a definition with an
+    identifier but no name, or an identifier of the form <other identifier>_sdn_unique_<n> (any case)"""
+    by_lib = {}
+    for D in design["defs"]:
+        if D["eid"] is not None:
+            if D["name"] is None:
+                return True
+            by_lib.setdefault(D["lib"], []).append(D["eid"].lower())
+    for ids in by_lib.values():
+        s = set(ids)
+        for x in ids:
+            m = UNIQ_ID_RE.match(x)
+            if m and m.group(1) in s:
+                return True
+    return False
 
 
 def theorems_of(pid):
@@ -53,8 +76,14 @@ def _data(e):
 
 
 def _eid(e):
-    v = e._data.get("EDIF.identifier")
-    return v if isinstance(v, str) else None
+    if "EDIF.identifier" not in e._data:
+        return None
+    v = e._data["EDIF.identifier"]
+    if not isinstance(v, str):
+        # the transformations concatenate strings onto the identifier: a non-string entry is outside
+        # the modelled domain (the input is skipped, never silently mapped to "no identifier")
+        raise ValueError("non-string EDIF.identifier")
+    return v
 
 
 def dump(nl, ctr):
@@ -450,8 +479,11 @@ def uniquify_round(nl, ctr, drv, R, rno):
         R.corr.append(("uniquify model finished within %d iterations (hypothesis `finished` of the theorems)" % UFUEL, None, False, None))
         return False
     mo = ans["design"]
-    n_new_named = sum(1 for D in mo["defs"][n_pre:] if D["name"] is not None)
+    n_new_named = sum(1 for D in mo["defs"][n_pre:] if D["name"] is not None or D["eid"] is not None)
     skipped_ctr = ans["ok"] and (mo["ctr"] - ctr != n_new_named)
+    erisk = eid_risk(design)
+    if erisk:
+        R.tags.append("uniq.identifier-clash-possible")
     R.tags.append("uniq.clones%s=%d" % ("" if rno == 0 else "@later", min(len(mo["defs"]) - n_pre, 20)))
     if skipped_ctr:
         R.tags.append("uniq.counter-skips-taken-name")
@@ -466,7 +498,10 @@ def uniquify_round(nl, ctr, drv, R, rno):
         exc = e
     if exc is not None:
         fam = exc_family(exc)
-        if fam == "value" and skipped_ctr:
+        if fam == "value" and erisk:
+            R.spec.append((SIG_EID, "uniquify raised ValueError: the copy's EDIF.identifier (identifier + _sdn_unique_N, or the unchanged identifier of an unnamed definition) clashes case-insensitively with a sibling's under the EDIF naming policy; the netlist is left half-transformed" + tag))
+            R.corr.append(("uniquify post-state", "raises value", "returns", SIG_EID))
+        elif fam == "value" and skipped_ctr:
             R.spec.append((SIG_CLASH, "uniquify raised ValueError: the name <definition>_sdn_unique_%d.. is already taken in the library; the netlist is left half-transformed" % ctr))
             R.corr.append(("uniquify post-state", "raises value", "returns", SIG_CLASH))
         else:
@@ -476,7 +511,7 @@ def uniquify_round(nl, ctr, drv, R, rno):
     obs = _post_obs(nl, None)
     exp = rebuild(mo, side)
     dff = first_diff(obs["cnet"], exp)
-    sig = SIG_CLASH if skipped_ctr else None
+    sig = SIG_EID if erisk else (SIG_CLASH if skipped_ctr else None)
     if dff:
         R.corr.append(("uniquify post-state dump" + tag, dff, None, sig))
     mrefs = [mo["refcount"][x] for ids in mo["order"] for x in ids]
@@ -608,7 +643,11 @@ def eval_flatten(spec, drv):
     if unique_problems(nl):
         R.skipped = "input-not-uniquified"
         return R
-    design, side = dump(nl, spec["ctr"])
+    try:
+        design, side = dump(nl, spec["ctr"])
+    except ValueError:
+        R.skipped = "input-out-of-domain"
+        return R
     chk = drv.ask({"fn": "spec", "design": design})
     if "error" in chk or not (chk["wf"] and chk["idsUnique"] and chk["named"]):
         R.skipped = "input-out-of-domain"
@@ -637,11 +676,32 @@ def eval_flatten(spec, drv):
         R.corr.append(("flatten model finished within |instances|+5 iterations", None, False, None))
         return R
     mo = ans["design"]
+    final_coll, transient_coll = joined_name_collisions(nl)
+    frisk = flat_identifier_risk(design)
+    if final_coll:
+        R.tags.append("flat.domain:joined-names-collide")
+    if transient_coll:
+        R.tags.append("flat.shell-name-collision-possible")
+    if frisk:
+        R.tags.append("flat.identifier-clash-possible")
     F.mod_name_uid = spec["ctr"]
     try:
         F.flatten(nl)
     except Exception as e:  # noqa
-        R.spec.append(("flatten.raises." + exc_family(e), "flatten raised %s" % type(e).__name__))
+        fam = exc_family(e)
+        if fam == "value" and final_coll:
+            # two leaf occurrences (or two cables) have the same slash-joined name: the property is
+            # unsatisfiable for this input (sibling names are unique); add_child / add_cable refuses
+            R.skipped = "domain:joined-names-collide(refused)"
+        elif fam == "value" and transient_coll:
+            R.spec.append((SIG_FLAT_SHELL, "flatten raised ValueError: a hierarchical instance is parked in the top definition under its path name %r, which another instance carries; all final (leaf) names are distinct, the netlist is left half-flattened" % transient_coll[0]))
+        elif fam == "value" and frisk:
+            R.spec.append((SIG_FLAT_EID, "flatten raised ValueError: the renewed EDIF.identifier instance_/cable_sdn_flat_N is already carried (case-insensitively) by a sibling under the EDIF naming policy; the netlist is left half-flattened"))
+        else:
+            R.spec.append(("flatten.raises." + fam, "flatten raised %s" % type(e).__name__))
+        return R
+    if final_coll:
+        R.skipped = "domain:joined-names-collide"
         return R
     # ---- correspondence
     cn = canon.cnetlist(nl)
@@ -855,6 +915,76 @@ def shrink(pid, spec, signature, drv, deadline):
 # ------------------------------------------------------------------------------------------------
 # shards
 # ------------------------------------------------------------------------------------------------
+def edif_policy_variant(rng, s, kind):
+    """Run the same design under the EDIF naming policy: every definition / instance / cable gets a
+    legal identifier; half of the time one definition's identifier equals
+    <another's>_sdn_unique_<ctr..ctr+2> in another letter case, or a shared definition loses its name."""
+    s["policy"] = "EDIF"
+    n = [0]
+
+    def ident(stem):
+        n[0] += 1
+        return "%s%d" % (stem, n[0])
+    for D in s["defs"]:
+        D["data"]["EDIF.identifier"] = ident("Dx")
+        for K in D["children"]:
+            if rng.random() < 0.6:
+                K["data"]["EDIF.identifier"] = ident("Ix")
+        for C in D["cables"]:
+            if rng.random() < 0.6:
+                C["data"]["EDIF.identifier"] = ident("Cx")
+    kind += "+edif"
+    r = rng.random()
+    shared = [D for D in s["defs"] if D["children"] or D["cables"]]
+    if r < 0.35 and shared:
+        D = rng.choice(shared)
+        k = s["ctr"] + rng.randrange(3)
+        clash = "%s_sdn_unique_%d" % (D["data"]["EDIF.identifier"], k)
+        clash = rng.choice([clash.upper(), clash.swapcase(), clash])
+        s["defs"].append({"lib": D["lib"] if rng.random() < 0.85 else 0, "name": "clash%d" % k, "data": {"EDIF.identifier": clash},
+                          "ports": [], "children": [], "cables": []})
+        kind += "+taken-identifier"
+    elif r < 0.5 and shared:
+        rng.choice(shared)["name"] = None
+        kind += "+unnamed-with-identifier"
+    return kind
+
+
+def joined_name_collisions(nl):
+    """(final, transient): slash-joined path names that two leaf occurrences / two cables would share in
+    the flattened top definition (the property is then unsatisfiable: sibling names are unique), and
+    names a dissolved shell shares only transiently with another instance."""
+    top = nl._top_instance._reference
+    inst_names = {}
+    cable_names = {}
+    for c in top._cables:
+        cable_names.setdefault(c.name, []).append("top")
+
+    def rec(d, prefix, depth):
+        if depth > 40:
+            return
+        for k in d._children:
+            nm = k.name if prefix == "" else prefix + "/" + (k.name or "")
+            leaf = _is_leaf(k._reference)
+            inst_names.setdefault(nm, []).append(leaf)
+            if not leaf:
+                for c in k._reference._cables:
+                    cable_names.setdefault((nm or "") + "/" + (c.name or ""), []).append("sub")
+                rec(k._reference, nm or "", depth + 1)
+    rec(top, "", 0)
+    final = [n for n, v in inst_names.items() if sum(1 for x in v if x) > 1] + [n for n, v in cable_names.items() if len(v) > 1]
+    transient = [n for n, v in inst_names.items() if len(v) > 1 and sum(1 for x in v if x) <= 1]
+    return final, transient
+
+
+def flat_identifier_risk(design):
+    for D in design["defs"]:
+        for X in D["children"] + D["cables"]:
+            if X["eid"] is not None and FLAT_ID_RE.match(X["eid"].lower()):
+                return True
+    return False
+
+
 def gen_input(pid, rng, tier):
     from engines import xform_gen as G
     size = 1.0 if tier == "quick" else rng.choice([1.0, 1.0, 1.5, 2.0])
@@ -883,6 +1013,8 @@ def gen_input(pid, rng, tier):
                         s["defs"].append({"lib": D["lib"] if rng.random() < 0.8 else 0, "name": nm, "data": {}, "ports": [],
                                           "children": [], "cables": []})
                         kind = "dag+taken-name"
+        if kind.startswith("dag") and rng.random() < 0.15:
+            kind = edif_policy_variant(rng, s, kind)
         if rng.random() < 0.35:
             s["hist_rounds"] = rng.choice([1, 1, 2, 3])
             s["hist_seed"] = rng.randrange(1 << 30)
@@ -893,6 +1025,25 @@ def gen_input(pid, rng, tier):
         return "chain", G.gen_chain(rng)
     if r < 0.7:
         return "tree", G.gen_spec(rng, "tree", max_depth=rng.choice([2, 3, 4, 5]), size=size)
+    if r < 0.76:
+        s = G.gen_spec(rng, "tree", max_depth=rng.choice([2, 3, 4]), size=size)
+        r2 = rng.random()
+        if r2 < 0.5:
+            return "tree+slash-names", G.slashify(rng, s)
+        kind = edif_policy_variant(rng, s, "tree").replace("+taken-identifier", "").replace("+unnamed-with-identifier", "")
+        s["defs"] = [D for D in s["defs"] if not (D["name"] or "").startswith("clash")]
+        for D in s["defs"]:
+            if D["name"] is None:
+                D["name"] = "renamed%d" % s["defs"].index(D)
+        if rng.random() < 0.5:
+            T = s["defs"][s["top"]]
+            k = s["ctr"] + rng.randrange(4)
+            if rng.random() < 0.5 and T["children"]:
+                rng.choice(T["children"])["data"]["EDIF.identifier"] = rng.choice(["INSTANCE_SDN_FLAT_%d", "instance_sdn_flat_%d", "Instance_Sdn_Flat_%d"]) % k
+            elif T["cables"]:
+                rng.choice(T["cables"])["data"]["EDIF.identifier"] = rng.choice(["CABLE_SDN_FLAT_%d", "cable_sdn_flat_%d"]) % k
+            kind += "+flat-identifier-taken"
+        return kind, s
     if r < 0.8:
         s = G.gen_spec(rng, "tree", max_depth=rng.choice([2, 3, 4]), size=size)
         s["hist_rounds"] = rng.choice([1, 1, 2])
